@@ -23,7 +23,7 @@ EXTENDS SchemaFam
 
 \* TLC cannot look inside a string: the names that occur both as TLA+ strings (entity types, ids,
 \* function names, keys) and as JSON string contents are tabulated once
-EjTable == [User |-> <<85,115,101,114>>, Group |-> <<71,114,111,117,112>>, Color |-> <<67,111,108,111,114>>, Action |-> <<65,99,116,105,111,110>>, Ghost |-> <<71,104,111,115,116>>, u1 |-> <<117,49>>, u2 |-> <<117,50>>, u3 |-> <<117,51>>, g1 |-> <<103,49>>, g2 |-> <<103,50>>, red |-> <<114,101,100>>, green |-> <<103,114,101,101,110>>, blue |-> <<98,108,117,101>>, view |-> <<118,105,101,119>>, edit |-> <<101,100,105,116>>, all |-> <<97,108,108>>, x |-> <<120>>, decimal |-> <<100,101,99,105,109,97,108>>, ip |-> <<105,112>>, datetime |-> <<100,97,116,101,116,105,109,101>>, duration |-> <<100,117,114,97,116,105,111,110>>, toDate |-> <<116,111,68,97,116,101>>, toTime |-> <<116,111,84,105,109,101>>, offset |-> <<111,102,102,115,101,116>>, k1 |-> <<107,49>>, k2 |-> <<107,50>>, type |-> <<116,121,112,101>>, id |-> <<105,100>>, fn |-> <<102,110>>, arg |-> <<97,114,103>>]
+EjTable == [User |-> <<85,115,101,114>>, Group |-> <<71,114,111,117,112>>, Color |-> <<67,111,108,111,114>>, Action |-> <<65,99,116,105,111,110>>, Ghost |-> <<71,104,111,115,116>>, u1 |-> <<117,49>>, u2 |-> <<117,50>>, u3 |-> <<117,51>>, g1 |-> <<103,49>>, g2 |-> <<103,50>>, red |-> <<114,101,100>>, green |-> <<103,114,101,101,110>>, blue |-> <<98,108,117,101>>, view |-> <<118,105,101,119>>, edit |-> <<101,100,105,116>>, all |-> <<97,108,108>>, x |-> <<120>>, decimal |-> <<100,101,99,105,109,97,108>>, ip |-> <<105,112>>, datetime |-> <<100,97,116,101,116,105,109,101>>, duration |-> <<100,117,114,97,116,105,111,110>>, toDate |-> <<116,111,68,97,116,101>>, toTime |-> <<116,111,84,105,109,101>>, offset |-> <<111,102,102,115,101,116>>, k1 |-> <<107,49>>, k2 |-> <<107,50>>, type |-> <<116,121,112,101>>, id |-> <<105,100>>, fn |-> <<102,110>>, arg |-> <<97,114,103>>] @@ ("" :> <<>>) @@ ("NS::Team" :> <<78,83,58,58,84,101,97,109>>) @@ ("NS::Sub::Unit" :> <<78,83,58,58,83,117,98,58,58,85,110,105,116>>) @@ ("t 1" :> <<116,32,49>>) @@ ("u::x" :> <<117,58,58,120>>) @@ ("lead" :> <<108,101,97,100>>) @@ ("unit" :> <<117,110,105,116>>) @@ ("nsref" :> <<110,115,114,101,102>>) @@ ("nsrefs" :> <<110,115,114,101,102,115>>)
 EjCp(s) == EjTable[s]
 EjKnown(cps) == \E s \in DOMAIN EjTable : EjTable[s] = cps
 EjNm(cps) == CHOOSE s \in DOMAIN EjTable : EjTable[s] = cps
@@ -176,11 +176,13 @@ Sc10 == [
                          rec |-> Opt_(TRec([who |-> Opt_(TEnt("User")), at |-> Opt_(TExt("datetime")),
                                             inner |-> Opt_(TRec([c |-> Req_(TEnt("Color")), d |-> Opt_(TExt("duration"))]))])),
                          recs |-> Opt_(TSet(TRec([c |-> Req_(TEnt("Color"))]))),
-                         look |-> Opt_(LookTy), call |-> Opt_(TRec([fn |-> Req_(TStr), arg |-> Req_(TStr)]))],
+                         look |-> Opt_(LookTy), call |-> Opt_(TRec([fn |-> Req_(TStr), arg |-> Req_(TStr)])),
+                         nsref |-> Opt_(TEnt("NS::Team")), nsrefs |-> Opt_(TSet(TEnt("NS::Sub::Unit")))],
              tags |-> TExt("decimal"), memberOf |-> {"Group"}, enum |-> {}],
     Group |-> [attrs |-> [owner |-> Opt_(TEnt("User"))], tags |-> TSet(TEnt("User")), memberOf |-> {"Group"}, enum |-> {}],
     Color |-> [attrs |-> <<>>, tags |-> NoTags, memberOf |-> {}, enum |-> {"red", "green"}]
-  ],
+  ] @@ ("NS::Team" :> [attrs |-> [lead |-> Opt_(TEnt("User")), unit |-> Opt_(TEnt("NS::Sub::Unit"))], tags |-> NoTags, memberOf |-> {"Group"}, enum |-> {}])
+    @@ ("NS::Sub::Unit" :> [attrs |-> <<>>, tags |-> TEnt("NS::Team"), memberOf |-> {"NS::Team"}, enum |-> {}]),
   acts |-> [
     view |-> [applies |-> TRUE, principals |-> {"User"}, resources |-> {"User", "Group"},
               context |-> [flag |-> Req_(TBool), who |-> Opt_(TEnt("User")), at |-> Opt_(TExt("datetime")), ips |-> Opt_(TSet(TExt("ipaddr"))),
